@@ -92,11 +92,13 @@ def bCHANNELS : Bytes := [67, 72, 65, 78, 78, 69, 76, 83]
 
 def chanName (c : Chan) : ObName := ⟨1, 0, c.ident⟩
 
-def channelTable (lp : List FrameType) : Table :=
+/-- the CHANNEL set: its objects `defs` in ANY order (not necessarily the order a Frame lists them; channels of several
+frames interleaved; channels no frame uses) -/
+def channelTable (defs : List Chan) : Table :=
   { stype := TD.C03.sCHANNEL, sname := [],
     cols := [⟨false, ⟨bLONG_NAME, 1, 20, [], none⟩⟩, ⟨false, ⟨bREPRESENTATION_CODE, 1, 15, [], none⟩⟩,
              ⟨false, ⟨bUNITS, 1, 27, [], none⟩⟩, ⟨false, ⟨bDIMENSION, 1, 18, [], none⟩⟩],
-    rows := (lp.flatMap FrameType.chans).map (fun c =>
+    rows := defs.map (fun c =>
       ⟨chanName c, [⟨bLONG_NAME, 1, 20, [], some [.bytes c.ident]⟩, ⟨bREPRESENTATION_CODE, 1, 15, [], some [.int c.rc]⟩,
                     ⟨bUNITS, 1, 27, [], none⟩,
                     ⟨bDIMENSION, c.dims.length, 18, [], some (c.dims.map (fun (d : Nat) => Value.int (d : Int)))⟩]⟩) }
